@@ -286,8 +286,9 @@ fn transpose<B: StarkField, const N: usize>(mut segments: Vec<Segment<B, N>>) ->
     let mut result = unsafe { uninit_vector::<[B; N]>(result_len) };
 
     // determine number of batches in which transposition will be preformed; if `concurrent`
-    // feature is not enabled, the number of batches will always be 1
-    let num_batches = get_num_batches(result_len);
+    // feature is not enabled, the number of batches will always be 1; a batch must hold at least
+    // one row (both numbers are powers of two)
+    let num_batches = core::cmp::min(get_num_batches(result_len), num_rows);
     let rows_per_batch = num_rows / num_batches;
 
     // define a closure for transposing a given batch
